@@ -95,6 +95,7 @@ namespace
     struct Input
     {
         bool                     rank{true};
+        bool                     passive{false};   // the source port carries the Passive arg tag: passive(port)
         std::vector<std::size_t> tpath;
         Src                      src;
     };
@@ -160,7 +161,8 @@ namespace
                 {
                     Stmt       &s = p.stmts.at(l.at(1));
                     Input       in;
-                    in.rank       = l.at(3) != 0;
+                    in.rank       = (l.at(3) & 1) != 0;   // bit 0: rank_dependency, bit 1: passive marker
+                    in.passive    = l.at(3) >= 2;
                     std::size_t q = 5;
                     for (std::int64_t i = 0; i < l.at(4); ++i) { in.tpath.push_back((std::size_t)l.at(q++)); }
                     in.src = parse_src(l, q);
@@ -326,6 +328,7 @@ namespace
             {
                 rt->in_ty.push_back(type_of_src(in.src));
                 WiringPortRef port = port_of_src(in.src);
+                if (in.passive) { port = port.with_arg_tag(WiringPortRef::ArgTag::Passive); }   // what passive(port) does
                 sources.push_back(port);
                 inputs.push_back(WiringInputRef{.source = std::move(port), .target_path = in.tpath, .rank_dependency = in.rank});
             }
@@ -458,6 +461,7 @@ namespace
         if (m.find("rank dependency cannot target the same node") != std::string::npos) { return 4; }
         if (m.find("cycle between delayed_binding placeholders") != std::string::npos) { return 7; }
         if (m.find("already bound") != std::string::npos) { return 8; }
+        if (m.find("passive would deactivate every input") != std::string::npos) { return 9; }
         return 5;
     }
 
@@ -512,6 +516,20 @@ namespace
             has_push           = has_push || (schema != nullptr && schema->node_kind == NodeKind::PushSource);
         }
         out.line(nodes);
+        // active-input list of every native node with inputs (shows which statement's passive markers are in force)
+        for (const NodeBuilder &nb : gb->nodes())
+        {
+            const std::string lbl{nb.label()};
+            if (lbl.size() < 2 || lbl[0] != 'L') { continue; }
+            const std::int64_t c  = std::stoll(lbl.substr(1));
+            auto               it = prog.stmts.find(c);
+            if (it == prog.stmts.end() || (it->second.kind != 1 && it->second.kind != 2) || it->second.ins.empty()) { continue; }
+            const auto *schema = nb.type().schema();
+            if (schema == nullptr || !schema->active_inputs.has_value()) { continue; }
+            Line l{27, k, c};
+            for (auto slot : *schema->active_inputs) { l.push_back((std::int64_t)slot); }
+            out.line(l);
+        }
         std::vector<Line> edges;
         for (const GraphEdge &e : gb->edges())
         {
